@@ -395,3 +395,8 @@ M("C17", "empty-lines-not-counted", "a816/parse/scanner.py", "if self.line_offse
 M("C03", "pending-block-never-initialised", PROG, "        current_block = b\"\"\n        current_block_addr = self.resolver.pc\n        for node in program:", "        current_block_addr = self.resolver.pc\n        for node in program:", "C03.RU")
 M("C12", "mapping-applied-when-absent", PROG, "        if mapping is not None:\n", "        if mapping is None:\n", "C12.R2")
 M("C13", "record-loop-guard-inverted", NODES, '(record_header := ips_file.read(3)) != b"EOF"', '(record_header := ips_file.read(3)) == b"EOF"', "C13.R2")
+M("C06", "paren-search-skips-top", EXPRF, "range(len(items) - 1, -1, -1)", "range(len(items) - 2, -1, -1)", "C06.R2")
+M("C03", "reset-offset-one", PROG, "        self.resolver.pc = 0x000000\n        self.resolver.last_used_scope = 0\n        self.resolver.current_scope = self.resolver.scopes[0]", "        self.resolver.pc = 0x000001\n        self.resolver.last_used_scope = 0\n        self.resolver.current_scope = self.resolver.scopes[0]", "C03.R2")
+M("C14", "success-returns-one", PROG, "        self.logger.info(\"Success !\")\n        return 0", "        self.logger.info(\"Success !\")\n        return 1", "C14.R2")
+M("C02", "incbin-advances-backwards", NODES, "retval = current_pc + len(self.binary_content)", "retval = current_pc - len(self.binary_content)", "C02.R1")
+M("C13", "trailer-read-two-bytes", NODES, "(record_header := ips_file.read(3))", "(record_header := ips_file.read(2))", "C13.R2")
